@@ -496,6 +496,21 @@ def r14_session_state_is_born_with_the_session(ctx):
            "later session starts past `stop` and sends its first packets unpadded" % (bad[0][0].split("::")[-1], bad[0][1]))
 
 
+def r15_sizes_are_capped_at_what_a_record_can_carry(ctx):
+    """the cap applied to a scheme's numbers is the largest value the 16-bit length field of a frame can carry (65535) — the
+    limit of the *protocol's* record, not some smaller transport unit: a lower cap (2^14, "a TLS record") silently flattens
+    every bound above it, for padding0 and for every line"""
+    cap = None
+    for n_, c in ctx.P.consts.items():
+        if n_.endswith("padding::factory::MAX_RECORD_PAYLOAD_SIZE") or n_.split("::")[-1] == "MAX_RECORD_PAYLOAD_SIZE":
+            cap = c.get("int")
+    if cap is None:
+        ctx.missing("R05.15", "const MAX_RECORD_PAYLOAD_SIZE (integer value)")
+        return
+    ctx.ob("R05.15", "MAX_RECORD_PAYLOAD_SIZE:is-the-16-bit-maximum", cap == 65535, "src/padding/factory.rs", "scheme numbers are clamped to 65535, the largest length a frame header can announce" if cap == 65535 else
+           "scheme numbers are clamped to %d, not to 65535: every bound between the two is silently lowered — a scheme asking for 20000 bytes of padding0 or a 30000-byte record is shaped with %d instead" % (cap, cap))
+
+
 def run(ctx):
     from . import C09 as _C09s
     _C09s.r10_constructor_siblings(ctx)   # both roles start a session in the same state (counter 0, unbuffered, ids from 1): sibling cross-check of the constructors
@@ -513,6 +528,9 @@ def run(ctx):
     r10_scheme_parse(ctx)
     r13_generator_answers_for_the_line_asked(ctx)
     r14_session_state_is_born_with_the_session(ctx)
+    r15_sizes_are_capped_at_what_a_record_can_carry(ctx)
+    from . import C19 as _C19w
+    _C19w.r8_announced_md5_is_the_sessions_own(ctx)   # the scheme a packet is shaped with is read inside the section that numbers it: a writer that waited for the lock does not shape with a scheme replaced meanwhile
     from . import C08 as _C08w, C11 as _C11w
     _C08w.r8_buffered_sinks_are_flushed(ctx)   # a buffering wrapper left around the transport merges the records of a packet into one write: the sizes on the wire are no longer the drawn ones
     _C11w.r5_writer_users(ctx)    # every byte that reaches the transport goes through the shaping write path: no second user of the writer
